@@ -68,7 +68,8 @@ def name_of(cfg):
 
 
 class Builder:
-    def __init__(self, verif, target_root, log):
+    def __init__(self, verif, target_root, log, wide_seed=1, wide_iters=40):
+        self.wide_args = [str(wide_seed), str(wide_iters)]
         self.probe = os.path.join(verif, "harness", "cfgprobe")
         self.target_root = target_root
         self.log = log
@@ -108,7 +109,7 @@ class Builder:
             return {"status": "other_error", "detail": out[-1500:], "cmd": replay, "secs": secs}
         exe = os.path.join(env["CARGO_TARGET_DIR"], "debug", "cfgprobe")
         try:
-            rr = subprocess.run([exe], stdout=subprocess.PIPE, stderr=subprocess.PIPE, text=True, timeout=120)
+            rr = subprocess.run([exe] + self.wide_args, stdout=subprocess.PIPE, stderr=subprocess.PIPE, text=True, timeout=120)
         except subprocess.TimeoutExpired:
             return {"status": "run_error", "detail": "probe timed out", "cmd": replay, "secs": secs}
         if rr.returncode != 0 and "panicked at" in rr.stderr:
@@ -124,14 +125,22 @@ class Builder:
         for l in re.findall(r"feature_line=([^\n]+)", rr.stdout):
             label, _, val = l.partition(" ")
             lines[label] = val
-        return {"status": "ok", "digest": m.group(1), "values": int(m.group(2)), "lines": lines, "cmd": replay, "secs": secs}
+        sections = {}
+        for name, dg, nv in re.findall(r"section=(\S+) digest=([0-9a-f]+) values=(\d+)", rr.stdout):
+            sections[name] = (dg, int(nv))
+        if not sections:
+            return {"status": "run_error", "detail": "probe printed no section digest", "cmd": replay, "secs": secs}
+        mp = re.search(r"wide_calls_that_panicked=(\d+)", rr.stdout)
+        return {"status": "ok", "digest": m.group(1), "values": int(m.group(2)), "lines": lines, "sections": sections, "wide_panics": int(mp.group(1)) if mp else 0,
+                "cmd": replay, "run": f"/tmp/c20_replay/debug/cfgprobe {' '.join(self.wide_args)}", "secs": secs}
 
 
 def run(prop, tier, seed, rundir, verif, log):
     t_start = time.time()
     target_root = os.path.join(os.environ.get("VERIF_TARGET_DIR") or os.path.join(verif, "target"), "sweep")
     os.makedirs(target_root, exist_ok=True)
-    b = Builder(verif, target_root, log)
+    wide_iters = 40 if tier == "quick" else 400
+    b = Builder(verif, target_root, log, wide_seed=seed & 0xFFFFFFFF, wide_iters=wide_iters)
     cfgs = pick(tier, seed)
     results = {}
     q = queue.Queue()
@@ -262,6 +271,68 @@ def run(prop, tier, seed, rundir, verif, log):
                 "detail": f"the fixed workload over the always-present API prints digest {r['digest']} with {name_of((bb, fs))} but {ref['digest']} with {base}:(none): enabling {what} changes the behaviour of other items",
                 "profile": "stable-build", "case_seed": seed, "case_index": None, "replay_cmd": r["cmd"] + " && /tmp/c20_replay/debug/cfgprobe",
             })
+    # ---- the wide differential workload: every section digest identical within a base; the sections without
+    # transcendental functions (everything but trig_*) identical between the bases as well
+    # The sections that call transcendental functions depend on the float backend num-traits was built
+    # with.  That is `std` whenever the std feature is on anywhere in the dependency graph: the `image`
+    # crate switches num-traits/std on by itself (cargo feature unification), so `libm + image` computes
+    # sin/cos with std like the std base does.  (First version of this comparison raised a false alarm
+    # here: a last-bit difference in sin/cos between libm:(none) and libm:image is the backend, not vek.)
+    def backend(cfg):
+        return "std" if cfg[0] == "std" or "image" in cfg[1] else "libm"
+
+    def differing(r, ref, cross_base, trig_ref=None):
+        out = []
+        for name, (dg, nv) in sorted(ref["sections"].items()):
+            if name.startswith("trig_"):
+                if cross_base:
+                    continue
+                if trig_ref is not None:
+                    dg = trig_ref["sections"].get(name, (None, 0))[0]
+            got = r["sections"].get(name)
+            if got is None or got[0] != dg:
+                out.append(name)
+        return out
+
+    sections_compared = 0
+    for base in BASES:
+        ref = ok.get((base, ()))
+        if ref is None:
+            continue
+        for (bb, fs), r in ok.items():
+            if bb != base:
+                continue
+            sections_compared += len(ref["sections"])
+            tref = ok.get((backend((bb, fs)), ()))
+            if tref is None:
+                tref = r  # no reference for this backend: the trig sections of this configuration are not compared
+            diff = differing(r, ref, False, tref)
+            if not diff:
+                continue
+            culprit = fs
+            for sub in sorted((k for k in ok if k[0] == base and set(k[1]) <= set(fs) and differing(ok[k], ref, False, ok.get((backend(k), ())) or ok[k])), key=lambda k: len(k[1])):
+                culprit = sub[1]
+                break
+            what = "features=" + "+".join(culprit)
+            viols.append({
+                "sub": "config_sweep", "api": "cfgprobe wide workload", "ty": base, "class": "behaviour_changed",
+                "sig": f"{prop}|cfgprobe wide workload|{base}|behaviour_changed|{what}",
+                "detail": f"the pseudo-random workload over the always-present API (seed {b.wide_args[0]}, {b.wide_args[1]} iterations) gives different results in section(s) {diff} with {name_of((bb, fs))} than with {base}:(none): enabling {what} changes the behaviour of other items",
+                "profile": "stable-build", "case_seed": seed, "case_index": None, "replay_cmd": r["cmd"] + " && " + r["run"],
+            })
+    ref_std, ref_libm = ok.get(("std", ())), ok.get(("libm", ()))
+    if ref_std is not None and ref_libm is not None:
+        diff = differing(ref_libm, ref_std, True)
+        if ref_libm["digest"] != ref_std["digest"]:
+            diff = ["base_digest"] + diff
+        sections_compared += len([n for n in ref_std["sections"] if not n.startswith("trig_")])
+        if diff:
+            viols.append({
+                "sub": "config_sweep", "api": "cfgprobe wide workload", "ty": "std|libm", "class": "behaviour_changed",
+                "sig": f"{prop}|cfgprobe wide workload|std-vs-libm|behaviour_changed|features=libm",
+                "detail": f"the workload over the always-present API (seed {b.wide_args[0]}, {b.wide_args[1]} iterations; sections without transcendental functions) gives different results in section(s) {diff} with libm:(none) than with std:(none): choosing the libm feature instead of std changes the behaviour of items that call no transcendental function",
+                "profile": "stable-build", "case_seed": seed, "case_index": None, "replay_cmd": ref_libm["cmd"] + " && " + ref_libm["run"],
+            })
     seen_lines = {}
     for (bb, fs), r in sorted(ok.items(), key=lambda kv: len(kv[0][1])):
         for label, val in r["lines"].items():
@@ -294,6 +365,12 @@ def run(prop, tier, seed, rundir, verif, log):
         "digests": {base: sorted({r["digest"] for (bb, _), r in ok.items() if bb == base}) for base in BASES},
         "feature_lines_compared": len(seen_lines),
         "base_values_hashed": max([r["values"] for r in ok.values()] or [0]),
+        "wide_workload": {"seed": int(b.wide_args[0]), "iterations": int(b.wide_args[1]),
+                          "sections": {n: v[1] for n, v in sorted((ok.get(("std", ())) or {"sections": {}})["sections"].items())},
+                          "values_hashed_per_configuration": sum(v[1] for v in (ok.get(("std", ())) or {"sections": {}})["sections"].values()),
+                          "calls_that_panicked_per_configuration": (ok.get(("std", ())) or {}).get("wide_panics", 0),
+                          "section_digests_compared": sections_compared,
+                          "cross_base": "all sections except trig_* (transcendental functions) also compared between std:(none) and libm:(none)"},
         "toolchain": subprocess.run(["rustc", "--version"], stdout=subprocess.PIPE, text=True).stdout.strip(),
         "samples": [f"{name_of(c)} -> {r['status']}" + (f" digest {r['digest']} ({len(r['lines'])} feature lines) in {r['secs']:.0f}s" if r["status"] == "ok" else f": {r.get('detail','')[:120]}") for c, r in list(sorted(results.items(), key=lambda kv: -len(kv[0][1])))[:3]],
         "wall_s": round(time.time() - t_start, 1),
